@@ -197,6 +197,11 @@ def check(ctx):
     rules_prepare_frame(ctx, "R1")
     rules_get_frame(ctx, "R2")
     rules_loop_state(ctx, "R3")
+    # a merged timeline hands start_with(v) to every component and evaluates every component at every time, including
+    # before that component's own delay (C12/R1, R2)
+    from rules import c12
+    c12.check_loop_method(ctx, ctx.facts, "R4", "update", mutable=False)
+    c12.check_loop_method(ctx, ctx.facts, "R4", "start_with", mutable=True)
     ctx.notes.append("not decided: 'yields exactly v up to the delay' beyond C02/R1 + C13 endpoint facts; comparison "
                      "with an un-substituted twin at all times")
     ctx.assumptions.append("division is monotone and correctly rounded, so time-since-delay >= D implies quot >= 1")
